@@ -16,3 +16,14 @@ chk("C01",
     "Trusted: reference differentiator, UF abstraction, np proxy substitutions (listed in evidence). Programs beyond the bound are "
     "covered only by the paper argument (per-op VJP from C02 + traversal correctness). Tie regions of maximum/max are not explored here.",
     "exhaustive program enumeration + symbolic execution of real code + SMT equivalence per program", "DESIGN §3 C01")
+chk("C16",
+    "(a) the real sliding_window_view runs on symbolic UNBOUNDED integers (shape, window, step, dilation; ranks: 0-2 leading, 1-2 "
+    "[thorough 3] windowed dims, tuple/scalar/None argument forms); per path z3 discharges: accepted <=> W,S,D>=1 & W<=x & W*D<=x, "
+    "read-only, output shape, byte-offset map out[g,n,w] = arr[n, g*S+w*D], in-bounds, greedy maximality. (b) the real validation "
+    "prefixes of ConvND/MaxPoolND on symbolic integers composed with (a): accepted => valid, valid => accepted (known finding F3 "
+    "for dilated conv is split off by its arithmetic signature). (c) forward terms of conv_nd (every 1-D configuration in a box, "
+    "listed 2-D), max_pool, batchnorm, softmax, logsoftmax, gru (T=2) and the six losses on symbolic reals vs naive nested-loop "
+    "evaluation of the documented formula (z3 equality), invalid configurations must raise.",
+    "Trusted: as_strided (recorded, not executed, in the integer lane), fake C-contiguous array model with itemsize 8, NumPy "
+    "object loops, the naive formulas written in the harness, numba kernels as .py_func. Per fixed rank; induction over rank not made.",
+    "symbolic execution on unbounded z3 integers (inductive-style obligations) + SMT equivalence with naive formulas", "DESIGN §3 C16")
